@@ -142,6 +142,18 @@ func (s *walletSessionManager) isSessionOfOtherUser(authToken, userID string) bo
 	return ok && session.user != userID
 }
 
+// isSessionOf tells whether the given token is a live session of userID. It does not extend the session's expiry.
+func (s *walletSessionManager) isSessionOf(authToken, userID string) bool {
+	sess, err := s.gstore.GetIFPresent(authToken)
+	if err != nil {
+		return false
+	}
+
+	session, ok := sess.(*Session)
+
+	return ok && session.user == userID
+}
+
 func wrapSessionError(err error) error {
 	if errors.Is(err, ErrInvalidAuthToken) {
 		return ErrWalletLocked
